@@ -5,6 +5,7 @@ import (
 	"fmt"
 	"reflect"
 	"strings"
+	"sync"
 
 	"github.com/ChrisTrenkamp/xsel"
 )
@@ -60,6 +61,17 @@ type hiddenStructFieldSelf struct {
 func goType(t *TypeD) (reflect.Type, error) { return goTypeP(t, "F") }
 
 // two different struct types declared under the same name in different functions: reflect.Type.String() is "main.Item" for both
+// a recursive declared type (Unmarshal.tla: DirT)
+type dirT struct {
+	F1 string `xsel:"@id"`
+	F2 []dirT `xsel:"child::*"`
+}
+
+var (
+	declMu    sync.Mutex
+	declTypes = map[string]*TypeD{} // declared struct types seen so far, by name (for the "ref" kind)
+)
+
 func declaredItemA() reflect.Type {
 	type Item struct {
 		F1 string `xsel:"a"`
@@ -108,6 +120,12 @@ func goTypeP(t *TypeD, prefix string) (reflect.Type, error) {
 	case "func":
 		return reflect.TypeOf(func() {}), nil
 	case "struct":
+		if t.N == "Dir" {
+			declMu.Lock()
+			declTypes["Dir"] = t
+			declMu.Unlock()
+			return reflect.TypeOf(dirT{}), nil
+		}
 		if t.N != "" {
 			// declared types: only the two shapes above (field 1 tagged child::a or child::b, field 2 an untagged string)
 			if len(t.F) == 2 && t.F[0].Tag != nil && len(t.F[0].Tag.Steps) == 1 && t.F[0].T.K == "prim" && t.F[0].T.P == "string" {
@@ -168,12 +186,31 @@ func goTypeP(t *TypeD, prefix string) (reflect.Type, error) {
 const sentinelStr = "SENTINEL"
 const sentinelNum = 77
 
+// presetPtr: a tagged pointer field that held a struct of the caller's before the call
+type presetPtr struct {
+	field reflect.Value // the field (addressable)
+	old   reflect.Value // the pointer it held
+}
+
 // prefill puts sentinels into untagged primitive fields so that "left untouched" is observable
-func prefill(v reflect.Value, t *TypeD) {
+func prefill(v reflect.Value, t *TypeD) { prefillP(v, t, nil) }
+
+// pre != nil: tagged *struct fields are handed over pointing to a struct of the caller's (sentinels in its untagged fields);
+// Unmarshal allocates such fields freshly, so afterwards the field holds ANOTHER pointer and the caller's struct is as it was
+func prefillP(v reflect.Value, t *TypeD, pre *[]presetPtr) {
 	if t.K != "struct" || v.Kind() != reflect.Struct {
 		return
 	}
 	for i, f := range t.F {
+		if pre != nil && f.Tag != nil && f.Tag.Op != "none" && f.T.K == "ptr" && f.T.E.K == "struct" && f.T.E.N == "" {
+			if fv := v.Field(i); fv.Kind() == reflect.Pointer && fv.CanSet() && fv.Type().Elem().Kind() == reflect.Struct {
+				p := reflect.New(fv.Type().Elem())
+				sentinelAll(p.Elem())
+				fv.Set(p)
+				*pre = append(*pre, presetPtr{field: fv, old: p})
+				continue
+			}
+		}
 		if f.Tag != nil && f.Tag.Op != "none" {
 			// a nested struct held by value keeps its own untagged fields, too
 			if f.T.K == "struct" && v.Field(i).Kind() == reflect.Struct {
@@ -247,6 +284,14 @@ func projectF(v reflect.Value, t *TypeD, fresh bool) GV {
 	}
 	for t.K == "ptr" {
 		t = t.E
+	}
+	if t.K == "ref" {
+		declMu.Lock()
+		t = declTypes[t.N]
+		declMu.Unlock()
+		if t == nil {
+			return GV{K: "?ref"}
+		}
 	}
 	switch v.Kind() {
 	case reflect.String:
@@ -421,7 +466,12 @@ func unmarshalCase(line string, rep *Report, fnd *Findings) {
 		return
 	}
 	holder := reflect.New(rt) // *T, non-nil
-	prefill(holder.Elem(), &gl.Type)
+	var presets []presetPtr
+	if hash64([]byte(line))%2 == 0 {
+		prefillP(holder.Elem(), &gl.Type, &presets)
+	} else {
+		prefill(holder.Elem(), &gl.Type)
+	}
 	// a target that is itself a chain of pointers (**T): every other case hands the chain over fully allocated, with the caller's
 	// own struct at its end - Unmarshal allocates only the links that are nil, so untagged fields of that struct are kept
 	prealloc := false
@@ -497,6 +547,14 @@ func unmarshalCase(line string, rep *Report, fnd *Findings) {
 		if !sameGV(want, got) {
 			fail("value", "expected "+short2(want)+" got "+short2(got))
 		}
+		for _, ps := range presets {
+			// pointer fields are freshly allocated: the struct the field pointed to before is the caller's and stays as it was
+			if !ps.field.IsNil() && ps.field.Pointer() == ps.old.Pointer() {
+				fail("value", "a tagged pointer field was filled through the pointer it held before the call instead of being freshly allocated")
+			} else if !untouched(ps.old.Elem(), false) {
+				fail("value", "the struct a tagged pointer field pointed to before the call was written to")
+			}
+		}
 	}
 }
 
@@ -521,6 +579,8 @@ func (t TypeD) MarshalJSON() ([]byte, error) {
 	switch t.K {
 	case "prim":
 		return json.Marshal(map[string]any{"k": t.K, "p": t.P})
+	case "ref":
+		return json.Marshal(map[string]any{"k": t.K, "n": t.N})
 	case "ptr", "slice":
 		return json.Marshal(map[string]any{"k": t.K, "e": t.E})
 	case "struct":
